@@ -115,7 +115,8 @@ func (f *Frame) callStatic(b *ssa.BasicBlock, in *ssa.Call, callee *ssa.Function
 		}
 		for i, p := range callee.Params {
 			if pt, ok := p.Type().Underlying().(*types.Pointer); ok && i < len(args) {
-				if n, ok := pt.Elem().(*types.Named); ok && n.Obj().Pkg() != nil && n.Obj().Pkg().Path() == modulePath+"/core" && (n.Obj().Name() == "Table" || n.Obj().Name() == "index") {
+				_ = pt
+				if isCoreShared(p.Type()) {
 					for k, lo := range top.lockObjs {
 						f.oblige("lock", f.oblName(fmt.Sprintf("%s:table-use@%s#%d.%d", funcDisplay(f.fn), funcDisplay(callee), f.callSite(callee), k+1)), g, not(eq(f.loadLV(st, lo), "0")),
 							"a core table reached through the client is used only while the client mutex is held", []string{"C11"}, posOf(in))
